@@ -39,6 +39,9 @@ pub enum Req {
         uninit: bool,
         #[serde(default, skip_serializing_if = "Option::is_none")]
         name: Option<String>,
+        /// add through `copy_datum` from a datum of another, already built definition (where it has an offset)
+        #[serde(default, skip_serializing_if = "std::ops::Not::not")]
+        via_copy: bool,
     },
     /// removes field `f<field>`
     Remove { field: usize },
@@ -173,9 +176,20 @@ pub fn build(plan: &Plan) -> Result<Built, String> {
     let mut keys = Vec::new();
     for req in &plan.reqs {
         match req {
-            Req::Add { ty, uninit, name } => {
+            Req::Add { ty, uninit, name, via_copy } => {
                 let name = name.clone().unwrap_or_else(|| format!("f{}", ids.len()));
-                let id = add_typed(&mut b, ty, &name, *uninit)?;
+                let id = if *via_copy {
+                    // the datum as it sits in another definition, behind some other data
+                    let mut other = NativeRecordDefinitionBuilder::new(HostTypeResolver);
+                    other.add_datum::<u64, _>("other_head")?;
+                    other.add_datum::<u8, _>("other_flag")?;
+                    let oid = add_typed(&mut other, ty, &name, *uninit)?;
+                    other.close_record_variant();
+                    let other = other.build();
+                    b.copy_datum(&other[oid])?
+                } else {
+                    add_typed(&mut b, ty, &name, *uninit)?
+                };
                 if format!("{}", id) != format!("{}", ids.len()) {
                     return Err(format!("datum id {} is not the request index {}", id, ids.len()));
                 }
@@ -255,7 +269,7 @@ fn gen_gap_reuse_plan(rng: &mut Rng, name: &str, opts: &SwarmOpts) -> Plan {
         let e = type_entry(ty);
         let name = if !free_names.is_empty() && rng.chance(1, 2) { Some(free_names.remove(rng.below(free_names.len()))) } else { None };
         names.push(name.clone().unwrap_or_else(|| format!("f{}", n_fields)));
-        reqs.push(Req::Add { ty: ty.to_string(), uninit: e.copy && rng.chance(1, 3), name });
+        reqs.push(Req::Add { ty: ty.to_string(), uninit: e.copy && rng.chance(1, 3), name, via_copy: rng.chance(1, 8) });
         live.push((n_fields, ty));
         n_fields += 1;
     };
@@ -365,7 +379,7 @@ pub fn gen_plan(rng: &mut Rng, name: &str, opts: &SwarmOpts) -> Plan {
             // sometimes under the name of a field removed earlier (in this transition or before)
             let name = if !free_names.is_empty() && rng.chance(1, 3) { Some(free_names.remove(rng.below(free_names.len()))) } else { None };
             names.push(name.clone().unwrap_or_else(|| format!("f{}", n_fields)));
-            reqs.push(Req::Add { ty: ty.to_string(), uninit, name });
+            reqs.push(Req::Add { ty: ty.to_string(), uninit, name, via_copy: rng.chance(1, 8) });
             live.push(n_fields);
             n_fields += 1;
         }
@@ -380,14 +394,18 @@ pub fn gen_plan(rng: &mut Rng, name: &str, opts: &SwarmOpts) -> Plan {
 }
 
 fn add(ty: &str) -> Req {
-    Req::Add { ty: ty.to_string(), uninit: false, name: None }
+    Req::Add { ty: ty.to_string(), uninit: false, name: None, via_copy: false }
 }
 fn addu(ty: &str) -> Req {
-    Req::Add { ty: ty.to_string(), uninit: true, name: None }
+    Req::Add { ty: ty.to_string(), uninit: true, name: None, via_copy: false }
+}
+/// adds a field by copying a datum of another definition
+fn addc(ty: &str) -> Req {
+    Req::Add { ty: ty.to_string(), uninit: false, name: None, via_copy: true }
 }
 /// adds a field under the name of a field removed before
 fn addn(ty: &str, name: &str) -> Req {
-    Req::Add { ty: ty.to_string(), uninit: false, name: Some(name.to_string()) }
+    Req::Add { ty: ty.to_string(), uninit: false, name: Some(name.to_string()), via_copy: false }
 }
 fn rm(field: usize) -> Req {
     Req::Remove { field }
@@ -431,6 +449,8 @@ pub fn corpus() -> Vec<Plan> {
         // may-be-uninitialised plain data interleaved with owned data of assorted sizes and alignments
         p("interleaved", true, true, vec![addu("u64"), add("toka8"), addu("u128"), add("toka3"), addu("u32"), add("tokah"), close(Append), addu("al16"), add("toka16"), addu("u16"), add("string"), close(Append), rm(1), addu("u8"), add("boxstr"), addu("u64x3"), close(Simple)]),
         p("interleaved_small", true, true, vec![addu("u16"), add("toka3"), addu("u32"), add("toka3"), addu("u64"), close(Append), add("tokb8"), addu("u128"), rm(1), close(Append), addu("p12"), add("opttok"), close(Simple)]),
+        // data copied from other definitions (copy_datum), mixed with ordinary ones
+        p("copied_data", true, true, vec![add("u32"), addc("toka8"), addc("string"), close(Simple), addc("u16"), add("tokb8"), rm(0), close(Simple), addc("toka16"), rm(2), close(Simple)]),
         // zero-size only
         p("zst_only", true, true, vec![add("unit"), add("tokaz"), close(Simple), add("u64x0"), rm(0), close(Simple)]),
     ]
